@@ -189,7 +189,7 @@ def schedule_for(case, fe, rng, style):
 
 def gen_c09(tier, rng):
     traces = []
-    n = 260 if tier == "quick" else 4000
+    n = 900 if tier == "quick" else 8000
     pairs = fe_kinds(tier)
     for k in range(n):
         fe, kind = pairs[k % len(pairs)]
@@ -274,7 +274,7 @@ def hostile_items(kind, rng, hosted):
 
 def gen_c12(tier, rng):
     traces = []
-    n = 330 if tier == "quick" else 6000
+    n = 900 if tier == "quick" else 10000
     pairs = fe_kinds(tier)
     for k in range(n):
         fe, kind = pairs[k % len(pairs)]
@@ -314,7 +314,7 @@ def obs_of(trace, conn_filter=None):
 def gen_c17(tier, rng):
     """returns (server traces judged by ServerTrace are not needed here) relational traces"""
     rel = []
-    n = 60 if tier == "quick" else 1200
+    n = 150 if tier == "quick" else 2000
     for k in range(n):
         kind = rng.choice(["tcp", "tcp", "rtu", "ascii"])
         cfg = {"single": rng.choice([0, 1]), "hosted": rng.choice([[1], [1, 2], [247, 3]]), "broadcast": 0, "ignore": rng.choice([0, 1])}
@@ -338,7 +338,7 @@ def gen_c17(tier, rng):
             runs.append({"fe": fe, "obs": obs_of(t)})
         rel.append({"id": "r%d" % k, "mode": "interchange", "kind": kind, "runs": runs, "reqs": [[u, t, list(p)] for u, t, p in reqs]})
     # isolation: 2-3 connections interleaved (random chunk boundaries) vs the same connection alone on the same store history
-    m = 40 if tier == "quick" else 800
+    m = 100 if tier == "quick" else 1500
     for k in range(m):
         fe = rng.choice(D.STREAM_FES)
         kind = rng.choice(["tcp", "rtu", "ascii"])
